@@ -640,6 +640,14 @@ Definition rho_of (types : vtable) : assignment :=
 Definition global_ok (P : program) (cur v : name) : bool :=
   (negb (is_empty cur) && mem v (params_of P cur)) || special v || negb (is_func P v).
 
+(* argument i of a call of f exists as a parameter (always so after a call head
+   that passed the arity check; [flat_event] numbers the arguments from 0) *)
+Definition arg_ok (P : program) (f : name) (i : nat) : bool :=
+  match func_info P f with
+  | None => false
+  | Some fi => fi_native fi || match nth_error (fi_params fi) i with Some _ => true | None => false end
+  end.
+
 Definition wf_step (P : program) (cur : name) (st : step) : bool :=
   match st with
   | SUse v _ => global_ok P cur v
@@ -655,8 +663,8 @@ Definition wf_step (P : program) (cur : name) (st : step) : bool :=
             end
           else negb (zlen (fi_params fi) <? nargs)
       end
-  | SArgExpr _ _ => true
-  | SArgVar _ _ v => global_ok P cur v
+  | SArgExpr f i => arg_ok P f i
+  | SArgVar f i v => arg_ok P f i && global_ok P cur v
   end.
 
 Definition wf (P : program) : bool :=
